@@ -119,7 +119,20 @@ fn step(tx: tir::Tx, a: Act, env: &Env) -> Result<tir::Tx, String> {
 }
 
 fn run_template(tx: &tir::Tx, label: &str, o: &mut Outcome, detail: &Value) {
-    let params = find_params(tx);
+    let mut params = find_params(tx);
+    // the stage is given every value the template asks for, whether or not `find_params` reports it (that is C06's
+    // question): read off the serialised tree
+    for (name, ty) in crate::common::canon::expected_values(tx) {
+        let ty = match ty.as_str() {
+            "Int" => tx3_tir::model::core::Type::Int,
+            "Bool" => tx3_tir::model::core::Type::Bool,
+            "Bytes" => tx3_tir::model::core::Type::Bytes,
+            "Address" => tx3_tir::model::core::Type::Address,
+            "UtxoRef" => tx3_tir::model::core::Type::UtxoRef,
+            _ => continue,
+        };
+        params.entry(name).or_insert(ty);
+    }
     let all_inputs: BTreeMap<String, std::collections::HashSet<Utxo>> = find_queries(tx)
         .keys()
         .enumerate()
